@@ -160,6 +160,8 @@ def run_c07(tier, deadline):
         outcome.coverage = {"evaluations": 1, "distinct_nontrivial": 0, "rule": "harness did not compile", "samples": ["compile failure"]}
         return outcome
     jobs = []
+    for c in ("dir_NoLabel", "und_string", "dweighted", "umulti") if tier == "quick" else list(C07_GROUPS):
+        jobs.append(Job(builds[c], ["--config", c, "--variant", "huge", "--tier", tier], label="%s/huge" % c, timeout=deadline + 300, deadline=deadline, env=SAN_ENV))
     for c in C07_GROUPS:
         for v in variants:
             jobs.append(Job(builds[c], ["--config", c, "--variant", v, "--tier", tier], label="%s/%s" % (c, v), timeout=deadline + 300, deadline=deadline, env=SAN_ENV))
@@ -203,21 +205,22 @@ SHAPES_PLANS = {
     "C08": {
         "quick": [(c, "n2", []) for c in ALL10] + [("dir_NoLabel", "n3", []), ("und_NoLabel", "n3", [])] +
                  [(c, "n3d3", []) for c in ("dir_int", "und_int", "dmulti", "umulti", "dweighted", "uweighted")] +
-                 [("dir_NoLabel", "e2n4", ["--nofiles"]), ("und_NoLabel", "e2n5", ["--nofiles"]), ("dmulti", "e2n3", []), ("umulti", "e2n3", []), ("dweighted", "e2n3", []), ("uweighted", "e2n3", [])],
-        "thorough": [(c, "n2", []) for c in ALL10] + [(c, "n3", []) for c in ALL10] +
+                 [("dir_NoLabel", "e2n4", ["--nofiles"]), ("und_NoLabel", "e2n5", ["--nofiles"]), ("dmulti", "e2n3", []), ("umulti", "e2n3", []), ("dweighted", "e2n3", []), ("uweighted", "e2n3", [])] + [(c, "big", []) for c in ("dir_int", "und_string")],
+        "thorough": [(c, "big", []) for c in PLAIN6] + [(c, "n2", []) for c in ALL10] + [(c, "n3", []) for c in ALL10] +
                     [("dir_NoLabel", "e2n4", []), ("und_NoLabel", "e2n5", []), ("dir_int", "e2n4", ["--nofiles"]), ("und_int", "e2n5", ["--nofiles"]),
                      ("dmulti", "e2n4", ["--nofiles"]), ("umulti", "e2n5", ["--nofiles"]), ("dweighted", "e2n4", ["--nofiles"]), ("uweighted", "e2n5", ["--nofiles"])],
     },
     "C09": {
         "quick": [(c, "n2", []) for c in PLAIN6] + [("dir_NoLabel", "n3", []), ("und_NoLabel", "n3", [])] + [(c, "n3d3", []) for c in ("dir_int", "und_int", "dir_string", "und_string")] +
-                 [(c, "ctor", ["--len", "2"]) for c in ALL10 + ["dir_struct", "und_struct"]],
-        "thorough": [(c, "n2", []) for c in PLAIN6] + [(c, "n3", []) for c in PLAIN6] + [(c, "ctor", ["--len", "3"]) for c in ALL10 + ["dir_struct", "und_struct"]],
+                 [(c, "ctor", ["--len", "2"]) for c in ALL10 + ["dir_struct", "und_struct"]] + [(c, "ctorlong", []) for c in ALL10 + ["dir_struct", "und_struct"]] + [(c, "big", []) for c in PLAIN6],
+        "thorough": [(c, "n2", []) for c in PLAIN6] + [(c, "n3", []) for c in PLAIN6] + [(c, "ctor", ["--len", "3"]) for c in ALL10 + ["dir_struct", "und_struct"]] +
+                    [(c, "ctorlong", []) for c in ALL10 + ["dir_struct", "und_struct"]] + [(c, "big", []) for c in PLAIN6],
     },
     "C10": {
         "quick": [(c, "n2", []) for c in PLAIN6] + [("dir_NoLabel", "n3", []), ("und_NoLabel", "n3", [])] + [(c, "n3d3", []) for c in ("dir_int", "und_int", "dir_string", "und_string")] +
-                 [("dir_NoLabel", "e2n4", ["--noloops"]), ("und_NoLabel", "e2n4", []), ("dir_int", "e2n3", []), ("und_int", "e2n4", [])],
+                 [("dir_NoLabel", "e2n4", ["--noloops"]), ("und_NoLabel", "e2n4", []), ("dir_int", "e2n3", []), ("und_int", "e2n4", [])] + [(c, "big", []) for c in ("dir_NoLabel", "und_int", "dir_string", "und_NoLabel")],
         "thorough": [(c, "n2", []) for c in PLAIN6] + [("dir_NoLabel", "n3", []), ("und_NoLabel", "n3", [])] + [(c, "n3d4", []) for c in ("dir_int", "und_int", "dir_string", "und_string")] +
-                    [("dir_NoLabel", "e2n4", []), ("und_NoLabel", "e2n5", []), ("dir_int", "e2n4", []), ("und_int", "e2n5", [])],
+                    [("dir_NoLabel", "e2n4", []), ("und_NoLabel", "e2n5", []), ("dir_int", "e2n4", []), ("und_int", "e2n5", [])] + [(c, "big", []) for c in PLAIN6],
     },
 }
 SHAPES_RULE = {
@@ -301,8 +304,9 @@ PATHS_PLANS = {
     "C11": {
         "quick": [J("dir", "e1", n=3), J("und", "e1", n=3), J("dir", "e2", n=4), J("und", "e2", n=5), J("und", "e2", n=6, noloops=True, maxedges=7),
                   J("dir", "layered", maxv=12), J("und", "layered", maxv=12), J("dir", "grid", side=5), J("und", "grid", side=5), J("dir", "dense", maxn=7), J("und", "dense", maxn=7),
-                  J("dir", "perm", n=4, edges=5), J("und", "perm", n=4, edges=5)],
-        "thorough": [J("dir", "e1", n=3), J("und", "e1", n=3), J("dir", "e2", n=4), J("und", "e2", n=5), J("und", "e2", n=6, noloops=True),
+                  J("dir", "perm", n=4, edges=5), J("und", "perm", n=4, edges=5), J("dir", "chains", maxn=200), J("und", "chains", maxn=200), J("dir", "snake", maxt=12), J("und", "snake", maxt=12),
+                  J("dir", "dups", n=3), J("und", "dups", n=3)],
+        "thorough": [J("dir", "chains", maxn=300), J("und", "chains", maxn=300), J("dir", "snake", maxt=20), J("und", "snake", maxt=20), J("dir", "dups", n=3), J("und", "dups", n=4), J("dir", "e1", n=3), J("und", "e1", n=3), J("dir", "e2", n=4), J("und", "e2", n=5), J("und", "e2", n=6, noloops=True),
                      J("dir", "layered", maxv=14), J("und", "layered", maxv=14), J("dir", "grid", side=5), J("und", "grid", side=5), J("dir", "dense", maxn=8), J("und", "dense", maxn=8),
                      J("dir", "perm", n=4, edges=6), J("und", "perm", n=4, edges=6), J("und", "perm", n=5, edges=6)] + sharded("dir", "e2", 8, n=5, noloops=True, maxedges=8),
     },
@@ -310,12 +314,16 @@ PATHS_PLANS = {
         "quick": [J("dw", "lists", n=3, weights="1,3"), J("dw", "e2", n=3, weights="0,1,3"), J("uw", "e2", n=3, weights="0,1,3"), J("dw", "e2", n=4, noloops=True, weights="0,1", maxedges=7),
                   J("uw", "e2", n=4, weights="0,1"), J("uw", "perm", n=4, edges=6, weights="1,3,8"), J("dw", "perm", n=4, edges=5, weights="0,2"),
                   J("dw", "dense", maxn=8, weight=0), J("uw", "dense", maxn=8, weight=0), J("dw", "ladder", maxl=26), J("uw", "ladder", maxl=26),
-                  J("dw", "layered", maxv=11, weight=0), J("uw", "layered", maxv=11, weight=1), J("dw", "grid", side=5, weight=1), J("uw", "grid", side=5, weight=0)],
+                  J("dw", "layered", maxv=11, weight=0), J("uw", "layered", maxv=11, weight=1), J("dw", "grid", side=5, weight=1), J("uw", "grid", side=5, weight=0),
+                  J("dw", "e2", n=4, noloops=True, weights="1,16777216,16777217", maxedges=5), J("uw", "perm", n=4, edges=5, weights="1,16777216,16777217"), J("uw", "e2", n=4, weights="1,16777217"),
+                  J("dw", "chains", maxn=130), J("uw", "chains", maxn=130), J("dw", "snake", maxt=12), J("uw", "snake", maxt=12)],
         "thorough": [J("dw", "lists", n=3, weights="0,1,3"), J("dw", "e2", n=3, weights="0,1,3,8"), J("uw", "e2", n=3, weights="0,1,3,8"), J("uw", "e2", n=4, weights="0,1,3"),
                      J("uw", "perm", n=4, edges=6, weights="1,2,3,6,8"), J("uw", "perm", n=4, edges=5, weights="0,1,3,8"), J("dw", "perm", n=4, edges=5, weights="0,1,3"), J("dw", "perm", n=4, edges=6, weights="1,3"),
                      J("dw", "dense", maxn=9, weight=0), J("uw", "dense", maxn=9, weight=0), J("dw", "ladder", maxl=30), J("uw", "ladder", maxl=30),
                      J("dw", "layered", maxv=13, weight=0), J("uw", "layered", maxv=13, weight=1), J("dw", "grid", side=6, weight=1), J("uw", "grid", side=6, weight=0)] +
-                    sharded("dw", "e2", 12, n=4, noloops=True, weights="0,1,3") + sharded("uw", "e2", 4, n=5, noloops=True, weights="0,1,3"),
+                    sharded("dw", "e2", 12, n=4, noloops=True, weights="0,1,3") + sharded("uw", "e2", 4, n=5, noloops=True, weights="0,1,3") +
+                    [J("dw", "e2", n=4, noloops=True, weights="1,16777216,16777217", maxedges=6), J("uw", "perm", n=4, edges=6, weights="1,16777216,16777217"), J("dw", "chains", maxn=300), J("uw", "chains", maxn=300),
+                     J("dw", "snake", maxt=30), J("uw", "snake", maxt=30)] + sharded("dw", "subsets", 8, n=5, edges=5, weights="1,3,8"),
     },
     "C19": {
         "quick": [J("dir", "layered", maxv=14), J("und", "layered", maxv=14), J("dir", "grid", side=6), J("und", "grid", side=6), J("dir", "dense", maxn=9), J("und", "dense", maxn=9),
@@ -323,13 +331,16 @@ PATHS_PLANS = {
                   J("dw", "ladder", maxl=28), J("uw", "ladder", maxl=28), J("dw", "dense", maxn=9, weight=0), J("uw", "dense", maxn=9, weight=0),
                   J("dw", "layered", maxv=12, weight=0), J("uw", "layered", maxv=12, weight=0), J("dw", "layered", maxv=12, weight=1), J("uw", "layered", maxv=12, weight=1),
                   J("dw", "grid", side=6, weight=0), J("uw", "grid", side=6, weight=1), J("dw", "lists", n=3, weights="1,3"), J("dw", "e2", n=3, weights="0,1,3"), J("uw", "e2", n=3, weights="0,1,3"),
-                  J("uw", "perm", n=4, edges=6, weights="1,3,8"), J("dw", "e2", n=4, noloops=True, weights="0,1", maxedges=7)],
+                  J("uw", "perm", n=4, edges=6, weights="1,3,8"), J("dw", "e2", n=4, noloops=True, weights="0,1", maxedges=7),
+                  J("dir", "snake", maxt=48), J("und", "snake", maxt=48), J("dw", "snake", maxt=30), J("uw", "snake", maxt=30), J("dir", "chains", maxn=300), J("und", "chains", maxn=300), J("dw", "chains", maxn=300)],
         "thorough": [J("dir", "layered", maxv=16), J("und", "layered", maxv=16), J("dir", "grid", side=8), J("und", "grid", side=8), J("dir", "dense", maxn=10), J("und", "dense", maxn=10),
                      J("dir", "e2", n=4), J("und", "e2", n=5), J("und", "e2", n=6, noloops=True), J("dir", "e1", n=3), J("und", "e1", n=3),
                      J("dw", "ladder", maxl=40), J("uw", "ladder", maxl=40), J("dw", "dense", maxn=10, weight=0), J("uw", "dense", maxn=10, weight=0),
                      J("dw", "layered", maxv=14, weight=0), J("uw", "layered", maxv=14, weight=0), J("dw", "layered", maxv=14, weight=1), J("uw", "layered", maxv=14, weight=1),
                      J("dw", "grid", side=8, weight=0), J("uw", "grid", side=8, weight=1), J("dw", "lists", n=3, weights="0,1,3"), J("uw", "e2", n=4, weights="0,1,3"),
-                     J("uw", "perm", n=4, edges=6, weights="1,2,3,6,8")] + sharded("dw", "e2", 12, n=4, noloops=True, weights="0,1,3"),
+                     J("uw", "perm", n=4, edges=6, weights="1,2,3,6,8"), J("dir", "snake", maxt=80), J("und", "snake", maxt=80), J("dw", "snake", maxt=60), J("uw", "snake", maxt=60),
+                     J("dir", "chains", maxn=300), J("und", "chains", maxn=300), J("dw", "chains", maxn=300), J("uw", "chains", maxn=300)] + sharded("dw", "e2", 12, n=4, noloops=True, weights="0,1,3") +
+                    sharded("dw", "subsets", 8, n=5, edges=5, weights="1,3,8"),
     },
 }
 PATHS_RULE = {
@@ -520,6 +531,10 @@ def c17_jobs(tier):
         jobs.append(("paths", "dw", "dijkstra dw 5-edge graphs on 5 vertices", ["--prop", "C12", "--config", "dw", "--source", "subsets", "--n", "5", "--edges", "5", "--weights", "1,3,8", "--stride", "5"], False))
         jobs.append(("paths", "uw", "dijkstra uw K4 all orders", ["--prop", "C12", "--config", "uw", "--source", "perm", "--n", "4", "--edges", "6", "--weights", "1,3,8"], False))
     jobs.append(("paths", "dw", "dijkstra dw ladder", ["--prop", "C12", "--config", "dw", "--source", "ladder", "--maxl", "12"], False))
+    jobs.append(("paths", "dir", "bfs dir long chains", ["--prop", "C11", "--config", "dir", "--source", "chains", "--maxn", "200"], False))
+    jobs.append(("paths", "und", "bfs und long chains", ["--prop", "C11", "--config", "und", "--source", "chains", "--maxn", "130"], False))
+    jobs.append(("paths", "dw", "dijkstra dw long chains", ["--prop", "C12", "--config", "dw", "--source", "chains", "--maxn", "130"], False))
+    jobs.append(("paths", "dw", "dijkstra dw 5 vertices", ["--prop", "C12", "--config", "dw", "--source", "subsets", "--n", "5", "--edges", "5", "--weights", "1,3,8", "--stride", "41" if tier == "quick" else "3"], False))
     if tier == "thorough":
         jobs.append(("paths", "dir", "bfs dir e2n4", ["--prop", "C11", "--config", "dir", "--source", "e2", "--n", "4"], False))
         jobs.append(("paths", "und", "bfs und e2n5", ["--prop", "C11", "--config", "und", "--source", "e2", "--n", "5"], False))
